@@ -906,6 +906,11 @@ pub fn vtable_words_check(words: *const usize, size: usize, getters: &[usize], t
             format!("vtable of {tname} occupies {size} bytes, {n} exported methods need {} (one function pointer each, nothing else)", n * std::mem::size_of::<usize>()),
         ));
     }
+    if n == 0 {
+        // a trait whose methods are all #[skip_func]: the vtable is an empty struct (its address
+        // is not a word address)
+        return Ok(());
+    }
     let w = unsafe { std::slice::from_raw_parts(words, n) };
     for i in 0..n {
         if w[i] != getters[i] {
